@@ -182,13 +182,17 @@ def finish(prop, mod, tier, seed, outs, extra, t0):
         notes.update(o.get('notes', []))
         snaps.update(tuple(x) for x in o.get('snaps', []))
         cross_points += o['cross']['points']
-        proved_names = {r['name'] for r in o['results'] if r['status'] == 'proved'}
+        by_base = {}
+        for r in o['results']:
+            by_base.setdefault(r['name'].split('@p')[0], []).append(r['status'])
+        # an obligation counts as proved for the cross-check only when it is proved on every path
+        proved_names = {b for b, sts in by_base.items() if all(x == 'proved' for x in sts)}
         # a refuted callee-contract fact explains native failures of obligations that
         # were proved modularly on top of it: those are not engine faults
         callee_broken = any(r['status'] == 'refuted' and ':callee.' in r['name'] for r in o['results'])
         for bad in ([] if callee_broken else o['cross']['bad']):
             full = f"{o['name']}:{bad['name']}"
-            if any(p == full or p.startswith(full + '@p') for p in proved_names):
+            if full in proved_names:
                 faults.append(f"engine cross-check: {full} proved symbolically but fails natively: " + str({k2: v2 for k2, v2 in bad.items() if k2 != 'point'})[:300])
         for dv in o.get('div', []):
             obligations += 1
